@@ -29,7 +29,7 @@ MAP = [
  ("scanning a table whose first row was deleted earlier", "C04", "KF-C04-self-deleted-first-row"),
  ("index range scan panicked when the last index entry", "C04", "KF-C04-self-deleted-last-index-entry"),
  ("undo of a delete (and redo of an insert) put the row", "C02", "KF-C02-undo-slot"),
- ("putting a row back into its freed slot", "C02", "KF-C02-undo-nearly-full-page"),
+ ("putting a row back into its freed slot", "C01", "KF-C01-undo-nearly-full-page"),
  ("redo refused size-reducing UPDATE", "C01", "KF-C01-redo-shrinking-update"),
  ("recovery truncated the log before", "C20", "KF-C20-truncate-before-flush"),
  ("undo at recovery was not idempotent", "C20", "KF-C20-undo-not-idempotent"),
@@ -44,6 +44,7 @@ MAP = [
  ("join conditions were dropped (cross product returned)", "C11", "KF-C11-cross-product"),
  ("NULL join keys matched each other", "C11", "KF-C11-null-keys-match-in-nested-loop"),
  ("free space check of TmpTuplePage wrapped around", "C11", "KF-C11-tmp-tuple-page-wrap"),
+ ("block pages of a new hash index were not written", "C07", "KF-C07-hash-block-pages-not-on-file"),
 ]
 
 def sh(cmd, **kw):
@@ -92,9 +93,6 @@ for (h, subj) in reversed(fixes):
         d["note"] = "fails when commit %s is reverted: %s" % (h, subj[:150])
         if isinstance(d.get("failure", {}).get("extra"), (str, dict)):
             ex = d["failure"]["extra"]
-            if isinstance(ex, dict) and "k" in ex and isinstance(d.get("case"), dict) and "txns" in d["case"]:
-                d["case"]["only_k"] = ex["k"]
-                d["case"]["only_tear"] = ex.get("tear", {"on": False, "bytes": 0})
             d["failure"].pop("extra", None)
         if not os.path.exists(dst):
             json.dump(d, open(dst, "w"), indent=1)
